@@ -1061,6 +1061,7 @@ func (s *Store) validateTokenExchangeRequest(ctx context.Context, r op.TokenExch
 			r.SetRequestedTokenType(oidc.RefreshTokenType)
 		case "id":
 			r.SetRequestedTokenType(oidc.IDTokenType)
+		case "none": // a storage that leaves an absent requested_token_type unset
 		default:
 			r.SetRequestedTokenType(oidc.AccessTokenType)
 		}
